@@ -5,27 +5,29 @@ import subprocess, sys, json, os, time, argparse, shutil
 from concurrent.futures import ThreadPoolExecutor
 ap = argparse.ArgumentParser(); ap.add_argument('-j', type=int, default=3); ap.add_argument('--props'); ap.add_argument('seeds', nargs='*')
 a = ap.parse_args()
-SD = '/verif/seeded'
+TAG = str(os.getpid())
+ROOT = os.path.dirname(os.path.dirname(os.path.abspath(__file__)))
+SD = os.path.join(ROOT, 'seeded')
 seeds = a.seeds or sorted(d for d in os.listdir(SD) if os.path.exists(os.path.join(SD, d, 'patch.diff')))
 def one(name):
     d = os.path.join(SD, name)
     meta = json.load(open(os.path.join(d, 'meta.json'))) if os.path.exists(os.path.join(d, 'meta.json')) else {'property': name.split('_')[0]}
     props = a.props.split(',') if a.props else [meta['property']]
-    wt = '/tmp/sweep_' + name
+    wt = '/tmp/sweep_%s_%s' % (TAG, name)
     subprocess.run(['git', '-C', '/repo', 'worktree', 'remove', '--force', wt], capture_output=True)
     subprocess.run(['git', '-C', '/repo', 'worktree', 'add', '-q', '--detach', wt, 'HEAD'], check=True)
     out = {}
     try:
         subprocess.run(['git', '-C', wt, 'apply', os.path.join(d, 'patch.diff')], check=True)
-        env = dict(os.environ, REPO=wt, VERIF_OUT='/tmp/sweep_out_' + name)
+        env = dict(os.environ, REPO=wt, VERIF_OUT='/tmp/sweep_out_%s_%s' % (TAG, name))
         for p in props:
             t = time.time()
-            r = subprocess.run(['/verif/check', p], capture_output=True, text=True, cwd='/verif', env=env)
+            r = subprocess.run([os.path.join(ROOT, 'check'), p], capture_output=True, text=True, cwd=ROOT, env=env)
             lines = [l for l in r.stdout.split('\n') if l.startswith(('VIOLATION', 'UNDECIDED', 'OK', 'KNOWN', 'refuted', 'bounded stand-in', 'undecided unit'))]
             out[p] = {'rc': r.returncode, 'lines': lines[:10], 's': round(time.time() - t, 1)}
     finally:
         subprocess.run(['git', '-C', '/repo', 'worktree', 'remove', '--force', wt], capture_output=True)
-        shutil.rmtree('/tmp/sweep_out_' + name, ignore_errors=True)
+        shutil.rmtree('/tmp/sweep_out_%s_%s' % (TAG, name), ignore_errors=True)
     return name, out
 res = {}
 with ThreadPoolExecutor(max_workers=a.j) as ex:
